@@ -274,6 +274,29 @@ func (p *peer) newRound(modes [][]int64, fresh bool) {
 	}
 }
 
+// quiesce waits until no request has arrived for 40 ms (at most 2 s): the exchanges of a round that was
+// started with a cancelled context go on after the call has returned.
+func (p *peer) quiesce() {
+	total := func() int {
+		p.mu.Lock()
+		defer p.mu.Unlock()
+		n := 0
+		for _, x := range p.nreq {
+			n += x
+		}
+		return n
+	}
+	last, since := total(), time.Now()
+	for start := time.Now(); time.Since(start) < 2*time.Second; {
+		time.Sleep(10 * time.Millisecond)
+		if n := total(); n != last {
+			last, since = n, time.Now()
+		} else if time.Since(since) > 40*time.Millisecond {
+			return
+		}
+	}
+}
+
 func (p *peer) serve(k int, c *net.UDPConn) {
 	buf := make([]byte, 2048)
 	for {
@@ -388,7 +411,7 @@ func (p *peer) handle(k int, b []byte, rx time.Time) []byte {
 		resp.OriginTime = req.TransmitTime
 		resp.TransmitTime = txNow
 	}
-	if len(p.txOf[ci]) > 64 {
+	if len(p.txOf[ci]) > 512 {
 		p.txOf[ci] = map[ntp.Time64]ntp.Time64{}
 	}
 	p.txOf[ci][resp.ReceiveTime] = txNow
@@ -789,7 +812,11 @@ func runHist(tags string, h *histIn) {
 		if r.pause {
 			// more than 3 s without an exchange: afterwards no client may send an interleaved request before it
 			// has completed another exchange; the 2 s limit of the history starts anew
-			time.Sleep(pauseLen)
+			for p0 := time.Now(); time.Since(p0) < pauseLen; {
+				if !idleWork() {
+					time.Sleep(pauseLen - time.Since(p0))
+				}
+			}
 			histStart = time.Now()
 			histWall = time.Now().Round(0)
 			stat["pause"] = true
@@ -803,9 +830,11 @@ func runHist(tags string, h *histIn) {
 		}
 		for i := 0; i < nc; i++ {
 			if filters[i] != nil {
+				filters[i].mu.Lock()
 				filters[i].script = r.vals[i]
 				filters[i].vals = nil
 				filters[i].resets = 0
+				filters[i].mu.Unlock()
 			} else {
 				offH[i].take()
 			}
@@ -898,6 +927,12 @@ func runHist(tags string, h *histIn) {
 			_, off, err = client.MeasureClockOffsetSCION(ctx, dlog, ntpcs, laddr, raddr, ps)
 		})
 		hitDeadline := time.Since(start) >= timeout
+		lingering := r.cancel && !errors.Is(err, context.Canceled) && !(err != nil && err.Error() == noPathMsg) && !panicked
+		if lingering {
+			// with a cancelled context the collection ends at once while the exchanges go on (they have no
+			// deadline): wait for them before looking at the clients
+			thePeer.quiesce()
+		}
 		if silent {
 			// give the exchanges that ended with the context a moment to return; a reply that left the peer late
 			// means the machine is too slow for this round: not recorded, the history ends
@@ -979,8 +1014,10 @@ func runHist(tags string, h *histIn) {
 			var vals []int64
 			resets := 0
 			if filters[i] != nil {
-				vals = filters[i].vals
+				filters[i].mu.Lock()
+				vals = append([]int64(nil), filters[i].vals...)
 				resets = filters[i].resets
+				filters[i].mu.Unlock()
 			} else {
 				// without a filter the client reports the raw offsets of its accepted exchanges
 				vals = offH[i].take()
@@ -1062,11 +1099,8 @@ func runHist(tags string, h *histIn) {
 		if panicked || (hitDeadline && !silent) {
 			break // the clients' state is no longer defined by the history
 		}
-		if r.cancel && cls != 5 && cls != 1 {
-			// with a cancelled context the collection ends at once while the exchanges go on (they have no
-			// deadline): wait for them; the clients' state is no longer defined by the history
-			time.Sleep(40 * time.Millisecond)
-			break
+		if lingering {
+			break // the clients' state is no longer defined by the history
 		}
 	}
 	if done == 0 {
